@@ -136,6 +136,13 @@ def run(case, ctx):
         return
     ctx.label('outcome:paths', 'shape:' + case.get('shape', 'random'))
     by_id = {int(r.request_id): [e.uid for e in p] for r, p in zip(rqs, pths)}
+    # a synchronised request keeps its STRICT route constraints (no combination satisfying them => DisjunctionError above)
+    for i in sorted(by_id):
+        strict = [u for u, h in items[i] if h == 'STRICT']
+        if strict and by_id[i] and not services.is_subsequence(_dedupe(strict), by_id[i]):
+            ctx.violation('strict-constraint-ignored-for-a-synchronised-request',
+                          f'request {i}: STRICT {strict}; route {[u for u in by_id[i] if u.startswith("roadm")]}')
+            return
     interesting = False
     for g in groups:
         for i in g:
